@@ -307,6 +307,40 @@ def run(ck: Check) -> int:
                                 sr.histogram['holds'] = sr.histogram.get('holds', 0) + 1
         sr.distinct = len(pats) * 8
     ck.search('matchbase-histories', s_mb_hist)
+
+    def s_unclosed(sr):
+        # a group opener that is never closed is literal text, and what FOLLOWS it keeps its meaning: the pattern equals its spelling with the
+        # opener escaped (added after seeded change C02k: a failed `@(` left the parser "inside a list", so a later `**` was no globstar)
+        heads = ['@(', '+(', '?(', '*(', '!(', 'x@(', '@(a|b', '+(a', '@(!(']
+        tails = ['a/**/b', '/**/b', 'a/**', '/**', 'a/*/b', 'a/**/b/**/c', '/b', 'a\\/**\\/b']
+        paths = ['@(a/b', '@(a/x/b', '@(a/x/y/b', '+(a/b', '?(a/x/b', '*(a/b', '!(a/x/y/b', 'x@(a/b', '@(a|ba/b', '@(a|ba/x/y/b', '+(aa/q/b', '@(!(a/b', '@(!(a/x/y/b',
+                 '@(/b', '@(/x/b', '@(a/', '@(a/x', '@(a/x/y', '@(a/b/c', '@(a/x/b/y/z/c', '@(a/q/b', 'a/b', '@(a']
+
+        def esc_head(h):
+            # (`?` and `*` of a failed `?(` / `*(` stay wildcards; `@`, `+`, `!` and the parenthesis are ordinary characters)
+            return ''.join('\\' + ch if ch in '@+!(|)' else ch for ch in h)
+        sr.note = (f'{len(heads)} unclosed openers x {len(tails)} continuations (whole-segment `**`, escaped separators) under EXTGLOB|GLOBSTAR (± DOTGLOB): '
+                   'globmatch / globfilter / compile of the pattern = of the pattern with the opener escaped, on paths with zero, one and several segments under `**`')
+        for h in heads:
+            for t in tails:
+                if '(' in t or ')' in t:
+                    continue
+                p1, p2 = h + t, esc_head(h) + t
+                for fl in (G.U | G.E | G.G, G.U | G.E | G.G | G.D):
+                    sr.evaluations += 1
+                    a = [bool(G.globmatch(q, p1, flags=fl)) for q in paths]
+                    b = [bool(G.globmatch(q, p2, flags=fl)) for q in paths]
+                    keep = set(G.globfilter(paths, p1, flags=fl))
+                    a2 = [q in keep for q in paths]
+                    if a != b or a2 != b:
+                        bad = [q for q, x, y in zip(paths, a, b) if x != y] or [q for q, x, y in zip(paths, a2, b) if x != y]
+                        ck.report(Failing(f'pattern {p1!r} (unclosed group opener) differs from its escaped spelling {p2!r} on {bad[:4]}',
+                                          {'api': 'glob.globmatch', 'pattern': p1, 'escaped': p2, 'flags': fl, 'paths': paths}, b, a), None)
+                        sr.histogram['FAIL'] = sr.histogram.get('FAIL', 0) + 1
+                    else:
+                        sr.histogram['holds'] = sr.histogram.get('holds', 0) + 1
+        sr.distinct = len(heads) * len(tails)
+    ck.search('unclosed-opener-is-literal', s_unclosed)
     if drv:
         drv.close()
     return ck.finish()
